@@ -71,6 +71,11 @@ end
 
 /-! ## completion by defaults -/
 
+/-- the keys that are not declared ports are exactly as supplied: same lookups, same entries -/
+def Undeclared (ports : PortList) (vals out : Items) : Prop :=
+  (∀ k, lookup k ports = none → lookup k out = lookup k vals) ∧
+  (∀ kv : String × V, lookup kv.1 ports = none → (kv ∈ out ↔ kv ∈ vals))
+
 mutual
 /-- `res` is what the completed parent mapping holds for a declared port, given what was supplied for it (`sup`) -/
 def DefaultsPort : Port → Option V → Option V → Prop
@@ -82,19 +87,16 @@ def DefaultsPort : Port → Option V → Option V → Prop
       match sup with
       | some (.atom _ _) => False           -- a namespace cannot be completed from a non-mapping
       | some (.dict _ items) =>             -- supplied: completed recursively, read-only
-          ∃ items', res = some (.dict true items') ∧ DefaultsPorts ports items items'
-            ∧ ∀ k, lookup k ports = none → lookup k items' = lookup k items
+          ∃ items', res = some (.dict true items') ∧ DefaultsPorts ports items items' ∧ Undeclared ports items items'
       | none =>
           if a.populate = false then res = none                -- populate_defaults=False and not supplied: left out
           else match a.default with
             | some (.atom _ _) => False
             | some (.dict _ d) =>           -- the namespace's own default is the starting point
-                ∃ items', res = some (.dict true items') ∧ DefaultsPorts ports d items'
-                  ∧ ∀ k, lookup k ports = none → lookup k items' = lookup k d
+                ∃ items', res = some (.dict true items') ∧ DefaultsPorts ports d items' ∧ Undeclared ports d items'
             | none =>
                 if ports = [] then res = none
-                else ∃ items', res = some (.dict true items') ∧ DefaultsPorts ports [] items'
-                  ∧ ∀ k, lookup k ports = none → lookup k items' = none
+                else ∃ items', res = some (.dict true items') ∧ DefaultsPorts ports [] items' ∧ Undeclared ports [] items'
 def DefaultsPorts : PortList → Items → Items → Prop
   | [], _, _ => True
   | (k, p) :: rest, vals, out => DefaultsPort p (lookup k vals) (lookup k out) ∧ DefaultsPorts rest vals out
@@ -103,7 +105,7 @@ end
 /-- `out` is `vals` completed with exactly the declared defaults: every declared port as `DefaultsPort` says, and every
 other key exactly as supplied (nothing else appears, nothing supplied is lost) -/
 def DefaultsExact (ports : PortList) (vals out : Items) : Prop :=
-  DefaultsPorts ports vals out ∧ ∀ k, lookup k ports = none → lookup k out = lookup k vals
+  DefaultsPorts ports vals out ∧ Undeclared ports vals out
 
 /-! ## read-only levels -/
 
